@@ -2,7 +2,7 @@
    Model: Lex/LexerRT.v (go_lexer.go.tmpl: Next, rewind, keyword switch, handleInvalidToken); the regex-level
    specification is Lex/Deriv.v (C09). *)
 From Coq Require Import List ZArith Bool.
-From TM Require Import Lex.Tables Lex.Scan Lex.LexerRT Lex.LexerRT_proofs Lex.LexerMaps Lex.LexerMaps_proofs.
+From TM Require Import Lex.Tables Lex.Scan Lex.LexerRT Lex.LexerRT_proofs Lex.LexerMaps Lex.LexerMaps_proofs Lex.LexerMaps_proofs2.
 Import ListNotations.
 Local Open Scope Z_scope.
 
@@ -50,13 +50,25 @@ Theorem C11_map_rune_finds_the_range : forall ranges lb d c, ranges_sortedb lb r
   ((forall k, 0 <= k < Z.of_nat (length ranges) -> ~ holds ranges k c) -> map_rune ranges d c = d).
 Proof. intros ranges lb d c H. apply map_rune_spec. exact (sortedb_sorted ranges lb H). Qed.
 
-(* NOT proved (partial): rune_class_lookup for ch >= 256 of maps beyond 2048 needs the correctness of the
-   CompressedMap builder (consume / emit with the strike and count > 8 rules): "the ranges emitted for m hold exactly
-   the non-default values of m".  It is modelled (compressed_map) and checked on every run: the model's arrays and
-   ranges equal the ones of lex.Tables.SymbolArr / CompressedMap for the tables of every generated lexer and for
-   thousands of synthetic maps, and looking characters up through the implementation's own tables equals the plain
-   lookup at every segment boundary and its neighbourhood.  next_spec (LexerRT.next_tok = token of the regex-level
-   specification) is not proved either; both streams are compared on every run. *)
+(* rune_class_lookup, CompressedMap part.  For EVERY symbol map as lex.Compile builds it, every start >= 0 and every
+   ch >= start: looking ch up with mapRune in the ranges built by CompressedMap(start) (segments of non-default class
+   collected into ranges, a default-class gap kept inside a range only while strike + count <= 8, a range closed after a
+   segment longer than 8, DefaultVal = the last value, trailing defaults trimmed), with the last target as the default,
+   is the plain symbol-map lookup. *)
+Theorem C11_compressed_map_lookup : forall m start ch, sorted_map m -> 0 <= start <= ch ->
+  map_rune (compressed_map m start) (last_target m) ch = lookup_sym m ch.
+Proof. exact compressed_map_lookup. Qed.
+
+(* rune_class_lookup, complete.  For EVERY symbol map as lex.Compile builds it and EVERY character ch >= 0, the class
+   lookup of the generated lexer (tmRuneClass below its length, else mapRune over tmRuneRanges when the map ends
+   beyond 2048, else the last target) is the plain symbol-map lookup used by Tables.Scan and by the LexerRT model. *)
+Theorem C11_rune_class_lookup : forall m ch, sorted_map m -> 0 <= ch ->
+  rune_class (rune_tables_of m) ch = lookup_sym m ch.
+Proof. exact rune_class_lookup. Qed.
+
+(* NOT proved: next_spec (LexerRT.next_tok = token of the regex-level specification); both streams are compared on
+   every run.  The models symbol_arr / compressed_map are compared with lex.Tables.SymbolArr / CompressedMap for the
+   tables of every generated lexer and for thousands of synthetic maps per run. *)
 
 Example C11_maps_example :
   let m := [(0, 1); (65, 2); (91, 1); (3000, 3); (3001, 1); (70000, 4); (70010, 1)] in
@@ -76,3 +88,5 @@ Print Assumptions C11_keyword_switch_complete.
 Print Assumptions C11_keyword_switch_other.
 Print Assumptions C11_rune_class_lookup_array.
 Print Assumptions C11_map_rune_finds_the_range.
+Print Assumptions C11_compressed_map_lookup.
+Print Assumptions C11_rune_class_lookup.
